@@ -27,4 +27,28 @@ theorem dict_keys_stay_distinct (E : Env) (kf vf : Option FieldSpec) (d : List (
     (hd : (dkeys d).Nodup) : (dkeys (dstep E kf vf d op).1).Nodup :=
   dict_keys_nodup E kf vf d op hd
 
+/-- **A rejected single-entry operation leaves the typed dict exactly as it was — entry for entry, in order** (C06 for typed dicts:
+    item assignment, `setdefault`, `|=`; the ordered association list is the state, so "an entry moved to the end" or "an entry
+    holding None disappeared" — what the round-9 change C06-r9-2 did — is a different state) -/
+theorem dict_single_rejected_unchanged (E : Env) (kf vf : Option FieldSpec) (d : List (Val × Val)) (op : DOp) (e : Val)
+    (hop : match op with | .set _ _ => True | .setdefault _ _ => True | .ior _ => True | _ => False)
+    (h : (dstep E kf vf d op).2 = .rejected e) : (dstep E kf vf d op).1 = d := by
+  cases op with
+  | set k v =>
+    simp only [dstep] at h ⊢
+    split <;> simp_all
+  | setdefault k v =>
+    simp only [dstep] at h ⊢
+    repeat' split
+    all_goals simp_all
+  | ior pairs =>
+    simp only [dstep] at h ⊢
+    repeat' split
+    all_goals simp_all
+  | update _ _ _ => cases hop
+  | pop _ _ => cases hop
+  | popitem => cases hop
+  | del _ => cases hop
+  | clear => cases hop
+
 end Cinco.C17b
